@@ -20,6 +20,7 @@ pub fn cases_for(prop: &str, tier: &str, r: &mut Rng) -> Vec<Case> {
             per_lang(&mut |l, r| match_cases(l, r, scale(t, 15, 300)), r, &mut cs);
             per_lang(&mut |l, r| tok_random(l, r, scale(t, 60, 2000), 100), r, &mut cs);
             cs.extend(dist_cases(r, 2, scale(t, 60, 1500)));
+            per_lang(&mut |l, r| blank_title_cases(l, r, scale(t, 2, 40)), r, &mut cs);
         }
         "C02" => {
             per_lang(&mut |l, r| store_cases(l, r, scale(t, 8, 150)), r, &mut cs);
@@ -46,11 +47,13 @@ pub fn cases_for(prop: &str, tier: &str, r: &mut Rng) -> Vec<Case> {
         "C18" => {
             per_lang(&mut |l, r| store_cases(l, r, scale(t, 10, 250)), r, &mut cs);
             cs.extend(trig_cases(r, scale(t, 200, 5000)));
+            per_lang(&mut |l, r| blank_title_cases(l, r, scale(t, 3, 40)), r, &mut cs);
         }
         "C19" => {
             cs.extend(dist_cases(r, 2, scale(t, 250, 6000)));
             cs.extend(jacc_cases(r, 2, scale(t, 400, 10000)));
             per_lang(&mut |l, r| store_cases(l, r, scale(t, 4, 80)), r, &mut cs);
+            per_lang(&mut |l, r| blank_title_cases(l, r, scale(t, 3, 40)), r, &mut cs);
         }
         "C20" => { cs.extend(reg_cases(r, scale(t, 40, 1500))); }
         _ => {}
